@@ -1052,12 +1052,20 @@ class Tr:
         return None
 
     # ---------------------------------------------------------------- statements
+    def stmt_ext(self, st):
+        """extension point for subclasses (py2mask.MTr, py2nd.NTr): Lean lines for a statement form of their own, or None"""
+        return None
+
     def body(self, stmts) -> str:
         out = []
         ret = None
         for si, st in enumerate(stmts):
             if ret is not None:
                 raise Untranslatable("statement after return")
+            ext = self.stmt_ext(st)
+            if ext is not None:
+                out += ext
+                continue
             if isinstance(st, ast.Expr) and isinstance(st.value, ast.Constant):
                 continue  # docstring
             if (isinstance(st, ast.Expr) and isinstance(st.value, ast.Call) and ast.unparse(st.value.func) in self.tgt.guard_calls):
@@ -1345,13 +1353,13 @@ def resolve_config(tree, tgt: Target) -> dict:
     return out
 
 
-def translate_target(repo, tgt: Target, structs) -> tuple[str, Tr]:
+def translate_target(repo, tgt: Target, structs, tr_class=None) -> tuple[str, Tr]:
     src = open(os.path.join(repo, tgt.file)).read()
     tree = ast.parse(src)
     fn = find_def(tree, tgt.path)
     import inline
     fn = inline.normalise(fn)
-    tr = Tr(tgt, structs)
+    tr = (tr_class or Tr)(tgt, structs)  # a typing sheet may select a subclass (`TR = …`) that accepts further constructs
     tr.fn_node = fn
     import inline
     tr.helpers = inline.helpers_of(tree, tgt.path.split(".")[0] if "." in tgt.path else None)
@@ -1496,7 +1504,7 @@ def generate(repo: str, module) -> dict:
             out.append(item + "\n")
         else:
             try:
-                code, tr = translate_target(repo, item, structs)
+                code, tr = translate_target(repo, item, structs, getattr(module, "TR", None))
                 for k in sorted(tr.numerals):
                     if k not in (0, 1, 2, 4):
                         raise Untranslatable(f"{item.path}: numeral {k} outside the supported set")
@@ -1508,7 +1516,7 @@ def generate(repo: str, module) -> dict:
         # targets the sheet declares untranslatable (a method that raises unconditionally in a specialisation):
         # becoming translatable means the source changed under the model
         try:
-            translate_target(repo, item, structs)
+            translate_target(repo, item, structs, getattr(module, "TR", None))
             errors.append({"target": item.name, "error": "expected to be refused by the translator, but it translates"})
         except (Untranslatable, OSError, SyntaxError):
             pass
